@@ -124,6 +124,9 @@ def run_ref(case) -> CaseResult:
     if CIPHERS[enc][3] not in ('gcm', 'chacha'):
         labels.add('mac:' + case['mac'])
 
+    if case.get('rekey') == 'asyncssh':
+        opts['rekey_bytes'] = 2000
+
     def hdr1(e: bytes, m: bytes) -> bool:
         return CIPHERS[e][3] in ('gcm', 'chacha') or MACS[m][3]
 
@@ -241,6 +244,59 @@ def run_ref(case) -> CaseResult:
         link.pump(chunker)
         check_ref(link, conn)
 
+        if case.get('rekey'):
+            # a second key exchange started by the peer or by asyncssh: new
+            # keys and - under strict KEX - restarted sequence numbers; the
+            # packets after it must decode just as well
+            done0 = len(ref.exchanges)
+
+            if case['rekey'] == 'peer':
+                ref.rekey()
+            else:
+                # asyncssh re-keys by itself after rekey_bytes (2000 here):
+                # make sure that much has been written
+                # (the limit is looked at before each packet is sent: the
+                # second write is the one that starts the exchange)
+                # (with compression the limit counts compressed bytes)
+                for tag in range(40, 120):
+                    data = payload(tag, 3000 if tag % 2 == 0 else 10)
+                    sent.append(data)
+                    h.call(app_chan.write, data)
+                    link.pump(chunker)
+
+                    if len(ref.exchanges) > 1:
+                        break
+
+                done0 = 1
+
+            link.pump(chunker)
+            link.pump(chunker)
+            check_ref(link, conn)
+
+            if len(ref.exchanges) <= done0:
+                raise Violation('rekey', 're-exchange with the independent '
+                                'peer did not complete (%s-initiated)' %
+                                case['rekey'], 'rekey-incomplete')
+
+            labels.add('rekeyed:' + case['rekey'])
+
+            if case['strict']:
+                labels.add('rekeyed-strict')
+
+            for i, n in enumerate(case['writes'][:3]):
+                data = payload(50 + i, n)
+                sent.append(data)
+                h.call(app_chan.write, data)
+
+            for i, n in enumerate(case['ref_writes'][:2]):
+                data = payload(150 + i, n)
+                k = conn.send_stream(rch, data)
+                rsent.append(data[:k])
+
+            link.pump(chunker)
+            link.pump(chunker)
+            check_ref(link, conn)
+
         want = b''.join(sent)
         got = rch.stream()
 
@@ -301,6 +357,7 @@ def ref_strategy(tier: str):
         'comp_sc': st.one_of(st.none(), st.none(),
                              pick(['none', 'zlib@openssh.com', 'zlib'])),
         'strict': st.booleans(),
+        'rekey': pick([None, None, 'peer', 'asyncssh']),
         'hostkey': pick(['ed25519', 'ecdsa', 'rsa']),
         'writes': st.lists(size, min_size=1, max_size=6),
         'ref_writes': st.lists(size, min_size=0, max_size=4),
@@ -534,7 +591,9 @@ FAMILIES = [
            budget={'quick': 2400, 'thorough': 30000},
            required={'all': ['role:server', 'role:client', 'chunk-1byte',
                              'chunk-coalesce', 'whole-records',
-                             'write>maxpkt', 'directions-differ',
+                             'write>maxpkt', 'rekeyed:peer',
+                             'rekeyed:asyncssh', 'rekeyed-strict',
+                             'directions-differ',
                              'directions-differ:length-field',
                              'directions-differ:blocksize'] +
                      ['enc:' + c.decode() for c in CIPHERS]},
